@@ -2,7 +2,9 @@ package sim
 
 import (
 	"fmt"
+	"math/big"
 	"sort"
+	"verif/harness/ref"
 
 	"go.sia.tech/core/consensus"
 	"go.sia.tech/core/types"
@@ -325,6 +327,40 @@ func (a *Adv) dupV1Fresh(want string, controls bool) int {
 			}
 			if controls {
 				a.emit(mk(1), "fresh-single-spend/v1-siafund/"+lock.Kind, "accept", nil, nil)
+			}
+		}
+	}
+	return n
+}
+
+// renewalStripped: an honest renewal that needed fresh coins (the rollover does not cover the new contract and its tax)
+// with its whole siacoin side removed - no inputs, no outputs, no fee. What is left is a transaction whose only
+// participant in the coin balance is the renewal itself, and it does not balance.
+func (a *Adv) renewalStripped(want string) int {
+	n := 0
+	for ti := range a.Honest.V2Transactions() {
+		orig := a.Honest.V2.Transactions[ti]
+		if len(orig.SiacoinInputs) == 0 || len(orig.FileContracts) > 0 {
+			continue
+		}
+		for ri := range orig.FileContractResolutions {
+			ren, ok := orig.FileContractResolutions[ri].Resolution.(*types.V2FileContractRenewal)
+			if !ok || len(orig.FileContractResolutions) != 1 {
+				continue
+			}
+			cost := ref.Big(ren.NewContract.RenterOutput.Value)
+			cost.Add(cost, ref.Big(ren.NewContract.HostOutput.Value)).Add(cost, ref.TaxV2(ren.NewContract.RenterOutput.Value, ren.NewContract.HostOutput.Value))
+			roll := new(big.Int).Add(ref.Big(ren.RenterRollover), ref.Big(ren.HostRollover))
+			if roll.Cmp(cost) >= 0 {
+				continue // the rollover pays for everything: stripping the coins would strip nothing that matters
+			}
+			blk := CloneBlock(a.Honest)
+			x := &blk.V2.Transactions[ti]
+			x.SiacoinInputs, x.SiacoinOutputs, x.MinerFee = nil, nil, types.ZeroCurrency
+			x.SiafundInputs, x.SiafundOutputs = nil, nil
+			SignV2(a.CS, x, SignOpts{})
+			if a.emit(blk, "v2-renewal/underfunded-with-the-siacoin-side-stripped", want, nil, nil) {
+				n++
 			}
 		}
 	}
@@ -1111,6 +1147,7 @@ func (a *Adv) WrapProbes(want string) int { return a.inflationProbes(want) }
 
 func (a *Adv) inflationProbes(want string) int {
 	n := a.dupV1Fresh(want, false)
+	n += a.renewalStripped(want)
 	half128 := types.Currency{Hi: 1 << 63}
 	emit := func(blk types.Block, label string) {
 		if a.emit(blk, label, want, nil, nil) {
